@@ -48,6 +48,25 @@ func (c *Crew) NewTimersSpec() *core.Spec {
 		return acc
 	}
 
+	// finished wraps an action so that the resulting bindings hold
+	// only the timers and (if any) the error.  In particular the
+	// bindings made by matching the request ("?id" ...) must not
+	// survive a failed request, or else the next request would
+	// have to match them.
+	finished := func(f func(context.Context, match.Bindings, core.StepProps) (*core.Execution, error)) func(context.Context, match.Bindings, core.StepProps) (*core.Execution, error) {
+		return func(ctx context.Context, bs match.Bindings, props core.StepProps) (*core.Execution, error) {
+			exe, err := f(ctx, bs, props)
+			if exe != nil && exe.Bs != nil {
+				acc := onlyTimers(exe.Bs)
+				if e, have := exe.Bs["error"]; have {
+					acc["error"] = e
+				}
+				exe.Bs = acc
+			}
+			return exe, err
+		}
+	}
+
 	spec := &core.Spec{
 		Name: "timers",
 		Doc:  "A machine that makes in-memory timers that send messages.",
@@ -71,7 +90,7 @@ func (c *Crew) NewTimersSpec() *core.Spec {
 			"make": {
 				Doc: "Try to make the timer.",
 				Action: &core.FuncAction{
-					F: func(ctx context.Context, bs match.Bindings, props core.StepProps) (*core.Execution, error) {
+					F: finished(func(ctx context.Context, bs match.Bindings, props core.StepProps) (*core.Execution, error) {
 						x, have := bs["?in"]
 						if !have {
 							return core.NewExecution(bs.Extend("error", "no in")), nil
@@ -108,7 +127,7 @@ func (c *Crew) NewTimersSpec() *core.Spec {
 						c.timers.changed()
 
 						return core.NewExecution(onlyTimers(bs)), nil
-					},
+					}),
 				},
 				Branches: &core.Branches{
 					Type: "bindings",
@@ -122,7 +141,7 @@ func (c *Crew) NewTimersSpec() *core.Spec {
 			"cancel": {
 				Doc: "Try to delete the timer.",
 				Action: &core.FuncAction{
-					F: func(ctx context.Context, bs match.Bindings, props core.StepProps) (*core.Execution, error) {
+					F: finished(func(ctx context.Context, bs match.Bindings, props core.StepProps) (*core.Execution, error) {
 						x, have := bs["?id"]
 						if !have {
 							return core.NewExecution(bs.Extend("error", "no id")), nil
@@ -139,7 +158,7 @@ func (c *Crew) NewTimersSpec() *core.Spec {
 						c.timers.changed()
 
 						return core.NewExecution(onlyTimers(bs)), nil
-					},
+					}),
 				},
 				Branches: &core.Branches{
 					Type: "bindings",
